@@ -434,6 +434,9 @@ func walCacheFollowsWrites(c *Ctx, r *Report, rule string) {
 			switch y := i.(type) {
 			case *ssa.Call:
 				id := callID(&y.Call)
+				if isLastIndexStoreHelper(y.Call.StaticCallee()) {
+					return true // storeLastIndex(idx): a helper that names the key itself
+				}
 				if id.Name == "Store" && id.Recv == "Map" && len(y.Call.Args) >= 2 {
 					// sync.Map.Store(key, value): args[0] is the receiver
 					for _, a := range y.Call.Args {
@@ -455,7 +458,7 @@ func walCacheFollowsWrites(c *Ctx, r *Report, rule string) {
 		eachInstr(f, func(i ssa.Instruction) {
 			if cl, ok := i.(*ssa.Call); ok && cl.Call.StaticCallee() != nil && len(cl.Call.Args) == 3 && modLocal(cl.Call.StaticCallee()) {
 				if b, isB := cl.Call.Args[2].Type().Underlying().(*types.Basic); isB && b.Kind() == types.Uint64 {
-					if _, isC := cl.Call.Args[2].(*ssa.Const); !isC && strings.Contains(strings.ToLower(cl.Call.StaticCallee().Name()), "delete") {
+					if _, isC := cl.Call.Args[2].(*ssa.Const); !isC && walSweeper(c, cl.Call.StaticCallee()) && !isHeadSweep(cl.Call.StaticCallee()) {
 						truncates = true
 					}
 				}
@@ -1740,6 +1743,26 @@ func routingTableNotMutated(c *Ctx, r *Report, rule string) {
 			case *ssa.Call:
 				id := callID(&y.Call)
 				mutating := id.Pkg == "sort" || (id.Pkg == "math/rand" && id.Name == "Shuffle") || (id.Pkg == "builtin" && id.Name == "copy")
+				if id.Pkg == "builtin" && id.Name == "append" && len(y.Call.Args) > 0 {
+					// appending onto a sub-slice of the table (`this.partitions[:0]`) writes into the table's array
+					for _, o := range origins(y.Call.Args[0], originOpt{}) {
+						if fieldOfValue(o) == fParts {
+							if _, isSub := strip(y.Call.Args[0]).(*ssa.Slice); isSub || true {
+								// (append onto the table itself is the constructor's idiom: only a re-sliced view with spare capacity
+								// overwrites existing elements)
+								if sl, ok := strip(y.Call.Args[0]).(*ssa.Slice); ok && sl.High != nil {
+									bad = fnName(f) + " appends onto a shortened view of the partition table at " + c.InstrPos(i)
+								} else if ph, ok := strip(y.Call.Args[0]).(*ssa.Phi); ok {
+									for _, e := range ph.Edges {
+										if sl, ok := strip(e).(*ssa.Slice); ok && sl.High != nil && fieldOfValue(sl.X) == fParts {
+											bad = fnName(f) + " appends onto a shortened view of the partition table at " + c.InstrPos(i)
+										}
+									}
+								}
+							}
+						}
+					}
+				}
 				if !mutating {
 					return
 				}
